@@ -22,11 +22,11 @@ import (
 	"github.com/attestantio/vouch/internal/vstub"
 	"github.com/attestantio/vouch/services/beaconblockproposer"
 	"github.com/attestantio/vouch/services/blockrelay"
+	nullmetrics "github.com/attestantio/vouch/services/metrics/null"
 	"github.com/attestantio/vouch/util"
 	"github.com/holiman/uint256"
 	"github.com/rs/zerolog"
 	"github.com/shopspring/decimal"
-	e2types "github.com/wealdtech/go-eth2-types/v2"
 	"go.opentelemetry.io/otel/trace"
 )
 
@@ -72,6 +72,50 @@ func c09Bid(val uint64, slotStart uint64, tag byte) *builderspec.VersionedSigned
 	}}
 }
 
+// c09DomainType is the DOMAIN_APPLICATION_BUILDER value of the stub chain
+// specification, c09Domain the genesis domain the stub node derives from it.
+var (
+	c09DomainType = phase0.DomainType{0x00, 0x00, 0x00, 0x01}
+	c09Domain     = phase0.Domain{0x00, 0x00, 0x00, 0x01, 0xf5, 0xa5, 0xfd, 0x42}
+)
+
+// c09Spec is the spec provider New asks for the application builder domain type.
+type c09Spec struct{}
+
+func (c09Spec) Spec(_ context.Context, _ *api.SpecOpts) (*api.Response[map[string]any], error) {
+	return &api.Response[map[string]any]{Data: map[string]any{"DOMAIN_APPLICATION_BUILDER": c09DomainType}, Metadata: map[string]any{}}, nil
+}
+
+// c09Domains is the domain provider New asks for the application builder domain.
+type c09Domains struct{}
+
+func (c09Domains) Domain(_ context.Context, t phase0.DomainType, _ phase0.Epoch) (phase0.Domain, error) {
+	return c09Domains{}.GenesisDomain(context.Background(), t)
+}
+
+func (c09Domains) GenesisDomain(_ context.Context, t phase0.DomainType) (phase0.Domain, error) {
+	if t != c09DomainType {
+		return phase0.Domain{}, errors.New("unexpected domain type")
+	}
+	return c09Domain, nil
+}
+
+// c09New builds the strategy the way main does: through New. Deadline and bid
+// gap are mandatory (non-zero) parameters.
+func c09New(ct *vstub.ChainTime, deadline time.Duration, bidGap time.Duration) *Service {
+	s, err := New(context.Background(), WithLogLevel(zerolog.Disabled), WithMonitor(&nullmetrics.Service{}),
+		WithSpecProvider(c09Spec{}), WithDomainProvider(c09Domains{}), WithChainTime(ct),
+		WithDeadline(deadline), WithBidGap(bidGap))
+	vnd.Assert(err == nil && s != nil, "C09.new.accepted")
+	return s
+}
+
+// c09Service is a strategy whose deadline and bid gap do not matter (the
+// harness calls below the auction loop).
+func c09Service(ct *vstub.ChainTime) *Service {
+	return c09New(ct, time.Second, 100*time.Millisecond)
+}
+
 // VerifC09_Deadline: the repeated-until-deadline auction with one relay
 // answering up to two successive requests (each a bid with one of three values
 // or an error, after a symbolic latency), symbolic deadline and gap between
@@ -92,7 +136,7 @@ func c09Deadline(n int) {
 	vnd.Assume(D >= 2 && D <= 60000 && gap >= 1 && 2*gap >= D) // at most two requests per relay
 	// the deadline is D (virtual ns) from now
 	sinceSlotStart := time.Duration(vnd.NowNs() - ct.StartOfSlot(c09Slot).UnixNano())
-	s := &Service{chainTime: ct, deadline: sinceSlotStart + D, bidGap: gap}
+	s := c09New(ct, sinceSlotStart+D, gap)
 	slotStart := uint64(ct.StartOfSlot(c09Slot).Unix())
 	pc := &beaconblockproposer.ProposerConfig{}
 	relays := make([]*c09Relay, n)
@@ -180,7 +224,7 @@ func c09Deadline(n int) {
 func VerifC16_DeadlineBidShapes() {
 	ct := vstub.NewChainTime(0)
 	sinceSlotStart := time.Duration(vnd.NowNs() - ct.StartOfSlot(c09Slot).UnixNano())
-	s := &Service{chainTime: ct, deadline: sinceSlotStart + 10, bidGap: 6}
+	s := c09New(ct, sinceSlotStart+10, 6)
 	slotStart := uint64(ct.StartOfSlot(c09Slot).Unix())
 	r := &c09Relay{name: "https://relay-a.example", start: vnd.NowNs()}
 	min := []int64{0, 5}[vnd.Choose("relay.min-value", 2)]
@@ -226,10 +270,20 @@ func VerifC16_DeadlineBidShapes() {
 	}
 }
 
+// c09Values, when set, makes bid values, offsets and factors come from small catalogues of
+// concrete numbers (among them the example of the documentation: value 1000, offset 10,
+// factor 110 against a bid of 1105): every score is then computed by the real math/big, so a
+// score formula that differs from the reference is decided at once, where the symbolic fold can
+// only answer "unknown" for wide multiplications and divisions that do not cancel syntactically.
+var c09Values []uint64
+
 // ndBid builds a capella bid with symbolic value, fee recipient, timestamp,
 // builder key and header (block hash).
 func ndBid(prefix string) (*builderspec.VersionedSignedBuilderBid, uint64) {
 	val := vnd.SmallU64(prefix+".value", 40)
+	if c09Values != nil {
+		val = c09Values[vnd.Choose(prefix+".value", len(c09Values))]
+	}
 	hdr := &capella.ExecutionPayloadHeader{
 		FeeRecipient: bellatrix.ExecutionAddress(vnd.Addr(prefix + ".fee-recipient")),
 		Timestamp:    vnd.U64(prefix + ".timestamp"),
@@ -258,7 +312,7 @@ func c09Score(val uint64, cfg *blockrelay.BuilderConfig) *big.Int {
 // satisfying the invariant: the winner has the highest non-zero score seen,
 // every listed provider offered the winner's header, the winner's relay is listed.
 func VerifC09_DeadlineFold() {
-	s := &Service{chainTime: vstub.NewChainTime(0)}
+	s := c09Service(vstub.NewChainTime(0))
 	res := &blockauctioneer.Results{Participation: map[string]*blockauctioneer.Participation{}}
 	relays := []*c09Relay{{name: "relay-a"}, {name: "relay-b"}}
 	// builder configurations
@@ -269,12 +323,18 @@ func VerifC09_DeadlineFold() {
 		cfgA = &blockrelay.BuilderConfig{Category: "priority"}
 		if vnd.Bool("builder.offset") {
 			cfgA.Offset = new(big.Int).SetUint64(vnd.SmallU64("offset", 40))
+			if c09Values != nil {
+				cfgA.Offset = new(big.Int).SetUint64([]uint64{0, 5, 10}[vnd.Choose("offset", 3)])
+			}
 			if vnd.Bool("offset.negative") {
 				cfgA.Offset = new(big.Int).Neg(cfgA.Offset)
 			}
 		}
 		if vnd.Bool("builder.factor") {
 			factors := []int64{0, 50, 100, 150}
+			if c09Values != nil {
+				factors = []int64{0, 50, 100, 110}
+			}
 			cfgA.Factor = big.NewInt(factors[vnd.Choose("factor", len(factors))])
 		}
 		cfgs[builderA] = cfgA
@@ -354,7 +414,7 @@ func VerifC09_DeadlineFold() {
 // the slot start; no relay key known) and improves on the relay's previous bid.
 func VerifC09_DeadlineEligible() {
 	ct := vstub.NewChainTime(0)
-	s := &Service{chainTime: ct}
+	s := c09Service(ct)
 	bid, val := ndBid("bid")
 	relay := &c09Relay{name: "relay-a", start: vnd.NowNs(), latency: []time.Duration{0}, fail: []bool{vnd.Bool("relay.fail")}, bids: []*builderspec.VersionedSignedBuilderBid{bid}}
 	if vnd.Bool("relay.nil-bid") {
@@ -410,7 +470,7 @@ func (r *c09KeyedRelay) Pubkey() *phase0.BLSPubKey { return r.key }
 // an oracle with a symbolic outcome.)
 func VerifC09_DeadlineSignature() {
 	ct := vstub.NewChainTime(0)
-	s := &Service{chainTime: ct, relayPubkeys: map[phase0.BLSPubKey]*e2types.BLSPublicKey{}}
+	s := c09Service(ct)
 	slotStart := uint64(ct.StartOfSlot(c09Slot).Unix())
 	bid := c09Bid(7, slotStart, 1)
 	relay := &c09KeyedRelay{c09Relay: c09Relay{name: "relay-a", start: vnd.NowNs(), latency: []time.Duration{0, 0}, fail: []bool{false, false}, bids: []*builderspec.VersionedSignedBuilderBid{bid, bid}}}
@@ -465,4 +525,10 @@ func VerifC09_DeadlineSignature() {
 			vnd.Assert(passedOn == valid, "C09.signature.bid-passed-on-exactly-when-its-signature-verifies")
 		}
 	}
+}
+
+// VerifC09_DeadlineFoldValues: the fold step over catalogues of concrete values (see c09Values).
+func VerifC09_DeadlineFoldValues() {
+	c09Values = []uint64{99, 1000, 1105}
+	VerifC09_DeadlineFold()
 }
